@@ -96,9 +96,9 @@ def build(tier, seed):
             for ln in (1, 2, 3, 4):
                 for part in range(8 if thorough else 1):
                     cases.append({"id": f"direct-{'s' if isserver else 'c'}-sp{si}-len{ln}-p{part}", "kind": "direct", "isserver": isserver, "space": si, "len": ln, "part": part})
-    for i in range(400 if thorough else 32):
+    for i in range(4000 if thorough else 32):
         cases.append({"id": f"history-{i}", "kind": "history", "i": i})
-    for i in range(4000 if thorough else 240):
+    for i in range(40000 if thorough else 240):
         cases.append({"id": f"e2e-{i}", "kind": "e2e", "i": i})
 
     def evalfn(case):
